@@ -89,7 +89,7 @@ PLAN = {
         "level": "model_checking",
         "rule": RULE_TRACE + "; prog = random programs of 50-200 calls over 8 registers with results fed back (the Normalised invariant is evaluated after every call)",
         "models": [MC("MC_P3_wide.cfg", W_WIDE), MC("MC_P3_frac.cfg", W_FRAC), MC("MC_P3_new.cfg", W_NEW), MC("MC_P3_addsub.cfg", W_ADD, "thorough"), MC("MC_P3_div.cfg", W_DIV, "thorough")],
-        "traces": [T("prog", (12, 300), (8, 14)), T("arith_all", (100, 2000), (2, 6)), T("conv", (300, 6000), (2, 6)), T("frac", (200, 4000), (2, 4)),
+        "traces": [T("prog", (12, 300), (8, 14)), T("arith_all", (100, 2000), (2, 6)), T("arith_new", (120, 2000), (4, 8)), T("conv", (300, 6000), (2, 6)), T("frac", (200, 4000), (2, 4)),
                    T("grid07", (64, 16), (4, 16))],
     },
     "C11": {
